@@ -1,0 +1,259 @@
+//! Verification hook (only compiled with `--cfg libp2p_verif`): thin `pub` wrappers around
+//! crate-private items of libp2p-swarm so that an external model-checking harness can drive
+//! the *production* code of the dial ranker, the concurrent / smart dial futures, a single
+//! `Connection` state machine and the connection-id allocator. Nothing here is compiled without
+//! the cfg flag.
+
+use std::{
+    future::Future,
+    num::NonZeroU8,
+    pin::Pin,
+    sync::atomic::{AtomicUsize, Ordering},
+    task::{Context, Poll},
+    time::Duration,
+};
+
+use futures::{FutureExt, future::BoxFuture};
+use libp2p_core::{Multiaddr, muxing::StreamMuxerBox, transport::TransportError, upgrade};
+use libp2p_identity::PeerId;
+
+use crate::{
+    ConnectionError, ConnectionHandler, ConnectionId,
+    connection::{
+        Connection, Event,
+        pool::{
+            concurrent_dial::{ConcurrentDial, PendingDial, SmartDial},
+            dial_ranker,
+        },
+    },
+};
+
+// ---------------------------------------------------------------------------------------------
+// dial ranking (dial_ranker.rs)
+
+/// `rank_dials` over plain addresses: every address is wrapped in a `PendingDial` whose future
+/// never resolves; the output is the production function's output order with its delays.
+pub fn rank_dials(addrs: Vec<Multiaddr>) -> Vec<(Duration, Multiaddr)> {
+    let dials = addrs
+        .into_iter()
+        .map(|addr| PendingDial {
+            addr,
+            fut: futures::future::pending().boxed(),
+        })
+        .collect();
+    dial_ranker::rank_dials(dials)
+        .into_iter()
+        .map(|(d, p)| (d, p.addr))
+        .collect()
+}
+
+// ---------------------------------------------------------------------------------------------
+// concurrent / smart dialing (concurrent_dial.rs)
+
+/// Same shape as the crate-private `DialFuture`.
+pub type VDialFuture = BoxFuture<
+    'static,
+    (
+        Multiaddr,
+        Result<(PeerId, StreamMuxerBox), TransportError<std::io::Error>>,
+    ),
+>;
+
+/// Same shape as the crate-private `DialResult`.
+pub type VDialResult = Result<
+    (
+        Multiaddr,
+        (PeerId, StreamMuxerBox),
+        Vec<(Multiaddr, TransportError<std::io::Error>)>,
+    ),
+    Vec<(Multiaddr, TransportError<std::io::Error>)>,
+>;
+
+fn pending(dials: Vec<(Multiaddr, VDialFuture)>) -> Vec<PendingDial> {
+    dials
+        .into_iter()
+        .map(|(addr, fut)| PendingDial { addr, fut })
+        .collect()
+}
+
+/// The production `ConcurrentDial` future built from harness futures.
+pub struct VConcurrentDial(ConcurrentDial);
+
+impl VConcurrentDial {
+    pub fn new(dials: Vec<(Multiaddr, VDialFuture)>, concurrency_factor: NonZeroU8) -> Self {
+        VConcurrentDial(ConcurrentDial::new(pending(dials), concurrency_factor))
+    }
+}
+
+impl Future for VConcurrentDial {
+    type Output = VDialResult;
+
+    fn poll(mut self: Pin<&mut Self>, cx: &mut Context<'_>) -> Poll<Self::Output> {
+        Pin::new(&mut self.0).poll(cx)
+    }
+}
+
+/// The production `SmartDial` future built from harness futures.
+pub struct VSmartDial(SmartDial);
+
+impl VSmartDial {
+    pub fn new(dials: Vec<(Multiaddr, VDialFuture)>) -> Self {
+        VSmartDial(SmartDial::new(pending(dials)))
+    }
+}
+
+impl Future for VSmartDial {
+    type Output = VDialResult;
+
+    fn poll(mut self: Pin<&mut Self>, cx: &mut Context<'_>) -> Poll<Self::Output> {
+        Pin::new(&mut self.0).poll(cx)
+    }
+}
+
+// ---------------------------------------------------------------------------------------------
+// a single connection (connection.rs)
+
+/// Public mirror of the crate-private `connection::Event`.
+#[derive(Debug, Clone)]
+pub enum VEvent<T> {
+    Handler(T),
+    AddressChange(Multiaddr),
+}
+
+/// The production `Connection` state machine over a harness muxer and handler.
+pub struct VConnection<H: ConnectionHandler>(Connection<H>);
+
+impl<H: ConnectionHandler> VConnection<H> {
+    pub fn new(
+        muxer: StreamMuxerBox,
+        handler: H,
+        substream_upgrade_protocol_override: Option<upgrade::Version>,
+        max_negotiating_inbound_streams: usize,
+        idle_timeout: Duration,
+    ) -> Self {
+        VConnection(Connection::new(
+            muxer,
+            handler,
+            substream_upgrade_protocol_override,
+            max_negotiating_inbound_streams,
+            idle_timeout,
+        ))
+    }
+
+    pub fn on_behaviour_event(&mut self, event: H::FromBehaviour) {
+        self.0.on_behaviour_event(event)
+    }
+
+    pub fn poll(
+        &mut self,
+        cx: &mut Context<'_>,
+    ) -> Poll<Result<VEvent<H::ToBehaviour>, ConnectionError>> {
+        Pin::new(&mut self.0).poll(cx).map(|r| {
+            r.map(|e| match e {
+                Event::Handler(t) => VEvent::Handler(t),
+                Event::AddressChange(a) => VEvent::AddressChange(a),
+            })
+        })
+    }
+}
+
+// ---------------------------------------------------------------------------------------------
+// connection-id allocator (connection.rs `NEXT_CONNECTION_ID`)
+
+/// The production allocator.
+pub fn next_connection_id() -> ConnectionId {
+    ConnectionId::next()
+}
+
+static SCHED_POINT: std::sync::RwLock<Option<fn(&'static str)>> = std::sync::RwLock::new(None);
+
+/// Install (or remove) the callback invoked *before* every atomic operation of a
+/// [`SchedAtomicUsize`]. A thread-interleaving explorer uses it as its scheduling point.
+pub fn set_sched_point(f: Option<fn(&'static str)>) {
+    *SCHED_POINT.write().unwrap() = f;
+}
+
+fn sched_point(op: &'static str) {
+    let f = *SCHED_POINT.read().unwrap();
+    if let Some(f) = f {
+        f(op)
+    }
+}
+
+/// A `std` atomic whose every operation is announced through [`set_sched_point`]'s callback
+/// first. Without a callback it behaves exactly like `AtomicUsize`.
+#[derive(Debug)]
+pub struct SchedAtomicUsize(AtomicUsize);
+
+impl SchedAtomicUsize {
+    pub const fn new(v: usize) -> Self {
+        SchedAtomicUsize(AtomicUsize::new(v))
+    }
+
+    pub fn load(&self, o: Ordering) -> usize {
+        sched_point("load");
+        self.0.load(o)
+    }
+
+    pub fn store(&self, v: usize, o: Ordering) {
+        sched_point("store");
+        self.0.store(v, o)
+    }
+
+    pub fn swap(&self, v: usize, o: Ordering) -> usize {
+        sched_point("swap");
+        self.0.swap(v, o)
+    }
+
+    pub fn fetch_add(&self, v: usize, o: Ordering) -> usize {
+        sched_point("fetch_add");
+        self.0.fetch_add(v, o)
+    }
+
+    pub fn fetch_sub(&self, v: usize, o: Ordering) -> usize {
+        sched_point("fetch_sub");
+        self.0.fetch_sub(v, o)
+    }
+
+    pub fn compare_exchange(
+        &self,
+        current: usize,
+        new: usize,
+        success: Ordering,
+        failure: Ordering,
+    ) -> Result<usize, usize> {
+        sched_point("compare_exchange");
+        self.0.compare_exchange(current, new, success, failure)
+    }
+
+    pub fn compare_exchange_weak(
+        &self,
+        current: usize,
+        new: usize,
+        success: Ordering,
+        failure: Ordering,
+    ) -> Result<usize, usize> {
+        sched_point("compare_exchange_weak");
+        self.0.compare_exchange(current, new, success, failure)
+    }
+
+    pub fn fetch_update<F>(
+        &self,
+        set_order: Ordering,
+        fetch_order: Ordering,
+        mut f: F,
+    ) -> Result<usize, usize>
+    where
+        F: FnMut(usize) -> Option<usize>,
+    {
+        // decomposed into load + compare_exchange so that both are scheduling points
+        let mut prev = self.load(fetch_order);
+        while let Some(next) = f(prev) {
+            match self.compare_exchange(prev, next, set_order, fetch_order) {
+                Ok(x) => return Ok(x),
+                Err(next_prev) => prev = next_prev,
+            }
+        }
+        Err(prev)
+    }
+}
